@@ -227,20 +227,53 @@ fn check_b(input: &[u8], k: usize, out_len: usize, has_selectors: bool) -> Optio
 }
 
 /// (start of the last token, whether that token is text reaching the end of the prefix)
-fn last_token_start(pobs: &Prepared, prefix: &[u8]) -> Option<(usize, bool)> {
+fn last_token_start(pobs: &Prepared, prefix: &[u8]) -> Option<(usize, bool, bool)> {
     let rr = run(pobs, &[prefix], true);
     if !rr.all_ok() {
         return None;
     }
-    rr.events
-        .iter()
-        .filter_map(|e| match e {
+    // A text lexeme longer than the decoder's 1 KiB buffer is delivered in several chunks: a chunk
+    // that directly follows a (nearly) buffer-sized text chunk belongs to the same token.
+    let mut best: Option<(usize, bool, bool)> = None;
+    let mut prev_text: Option<(usize, usize, usize)> = None; // (token start, chunk start, chunk end)
+    for e in &rr.events {
+        let cand = match e {
             // script data is excluded: its escape / double-escape look-ahead is longer than a keyword
-            Ev::Text { loc, ty, .. } if loc.1 > loc.0 => Some((loc.0, loc.1 == prefix.len() && *ty != 3)),
-            Ev::El { loc, .. } | Ev::EndTag { loc, .. } | Ev::Comment { loc, .. } | Ev::Doctype { loc, .. } if loc.1 > loc.0 => Some((loc.0, false)),
+            Ev::Text { loc, ty, .. } if loc.1 > loc.0 => {
+                let start = match prev_text {
+                    Some((tok, cs, ce)) if ce == loc.0 && ce - cs >= 1020 => tok,
+                    // (a second handler looking at the same chunk)
+                    Some((tok, cs, ce)) if (cs, ce) == (loc.0, loc.1) => tok,
+                    _ => loc.0,
+                };
+                prev_text = Some((start, loc.0, loc.1));
+                Some((start, loc.1 == prefix.len() && *ty != 3, loc.1 == prefix.len() && *ty == 3))
+            }
+            Ev::El { loc, .. } | Ev::EndTag { loc, .. } | Ev::Comment { loc, .. } | Ev::Doctype { loc, .. } if loc.1 > loc.0 => {
+                prev_text = None;
+                Some((loc.0, false, false))
+            }
             _ => None,
-        })
-        .max_by_key(|x| x.0)
+        };
+        if let Some(c) = cand {
+            if best.is_none_or(|b| c.0 >= b.0) {
+                best = Some(c);
+            }
+        }
+    }
+    best
+}
+
+fn script_lookahead_ok(rest: &[u8]) -> bool {
+    if rest[0] != b'<' {
+        return false;
+    }
+    let r = &rest[1..];
+    r.is_empty()
+        || (r[0] == b'/' && r[1..].iter().all(|b| b.is_ascii_alphabetic()))
+        || r == b"!"
+        || r == b"!-"
+        || (r.len() <= 6 && r.eq_ignore_ascii_case(&b"script"[..r.len()]))
 }
 
 fn check_c(pobs: &Prepared, input: &[u8], k: usize, out_len: usize) -> Option<String> {
@@ -248,7 +281,7 @@ fn check_c(pobs: &Prepared, input: &[u8], k: usize, out_len: usize) -> Option<St
         return None;
     }
     let prefix = &input[..k];
-    let Some((start, ends_in_text)) = last_token_start(pobs, prefix) else { return None };
+    let Some((start, ends_in_text, ends_in_script_text)) = last_token_start(pobs, prefix) else { return None };
     let slack = if has_text_handler(&pobs.cfg) { 3 } else { 0 };
     // Text is delivered chunk by chunk, it is never "the unfinished token": when the data so far
     // ends in text (of any text mode, CDATA included) only a partial character, the start of a
@@ -267,6 +300,20 @@ fn check_c(pobs: &Prepared, input: &[u8], k: usize, out_len: usize) -> Option<St
             return Some(format!(
                 "observers registered: the data written so far ({:?}) ends in text, but {:?} ({} bytes) is held back — more than a partial character, a possible tag start or a look-ahead",
                 lossy(prefix), lossy(held), held.len()
+            ));
+        }
+    }
+    // Script data: text is delivered chunk by chunk there too; what may be held back is the start
+    // of a possible end tag (its name may still grow), of a comment-like escape or of a nested
+    // "<script" — never text without a '<'.
+    if ends_in_script_text && out_len <= k && well_formed {
+        let held = &prefix[out_len..];
+        let lead = held.iter().take(slack).take_while(|b| **b >= 0x80).count();
+        let rest = &held[lead..];
+        if !rest.is_empty() && !script_lookahead_ok(rest) {
+            return Some(format!(
+                "observers registered: the data written so far ends in script text, but {:?} ({} bytes) is held back — not the start of a possible end tag, escape or nested script tag",
+                lossy(&held[..held.len().min(60)]), held.len()
             ));
         }
     }
@@ -361,6 +408,57 @@ fn sweep(ctx: &Ctx, name: &str, space: Space, cfgs: &[(Prepared, Kind)], lv: Lev
     });
 }
 
+/// Documents whose sizes sit just below, at and just above the implementation's thresholds.
+fn scaled_sweep(ctx: &Ctx, cfgs: &[(Prepared, Kind)]) {
+    let docs = scaled_docs(ctx.quick());
+    let quick = ctx.quick();
+    par_for(docs.len() * cfgs.len(), 1, |j| {
+        if ctx.over_time() {
+            return;
+        }
+        let (label, input) = &docs[j / cfgs.len()];
+        let (p, kind) = &cfgs[j % cfgs.len()];
+        let (fresh, calls) = fresh_lengths(p, input);
+        ctx.transitions.fetch_add(calls as u64, std::sync::atomic::Ordering::Relaxed);
+        ctx.evaluations.fetch_add(calls as u64, std::sync::atomic::Ordering::Relaxed);
+        let report = |msg: String, oracle: &str, k: usize, s: Option<&Sched>| {
+            let cfg = p.cfg.clone();
+            let case = json!({"cfg": cfg, "document": label, "input_hex": hex(input), "input_lossy": lossy(&input[..input.len().min(100)]), "oracle": oracle, "k": k, "sched": s});
+            let c2 = case.clone();
+            ctx.violation(msg, case, &|| replay(&c2));
+        };
+        for k in 1..=input.len() {
+            let ol = fresh.len[k];
+            ctx.validated(1);
+            if ol != usize::MAX && ol < k {
+                ctx.nontrivial.insert(digest(&(j, k)));
+            }
+            let r = match kind {
+                Kind::Passive => check_b(input, k, ol, !p.cfg.handlers.is_empty()).map(|m| (m, "B")),
+                Kind::Observing => check_c(p, input, k, ol).map(|m| (m, "C")),
+            };
+            if let Some((m, o)) = r {
+                report(m, o, k, None);
+                break;
+            }
+        }
+        for s in &scaled_scheds(input.len(), quick) {
+            ctx.exec(s.cuts.len() + 1);
+            ctx.validated(1);
+            if let Some(m) = check_a(p, input, s, &fresh) {
+                report(m, "A", 0, Some(s));
+            }
+        }
+        ctx.states.insert(digest(&(j, &fresh.len)));
+        if j % 211 == 3 {
+            ctx.sample(json!({"space": "scaled documents", "document": label, "config": p.cfg.label()}));
+        }
+    });
+    if !ctx.capped.load(std::sync::atomic::Ordering::Relaxed) {
+        ctx.level_done(&format!("{} scaled documents (sizes around 12, 32, 64, 256, 1024, 2048) x {} configs x every prefix x fixed chunk sizes + cuts around the thresholds", docs.len(), cfgs.len()));
+    }
+}
+
 pub fn run_check(ctx: &Ctx) -> i32 {
     let obs = observer_menu();
     let mk = |names: &[&str], kind: Kind, strict: &[bool]| -> Vec<(Prepared, Kind)> {
@@ -373,6 +471,11 @@ pub fn run_check(ctx: &Ctx) -> i32 {
     let l12 = Levels { l1: true, l2_max_len: 20, bytewise: true, empties: true };
     let l1 = Levels { l1: true, l2_max_len: 0, bytewise: true, empties: false };
     let k = F.len();
+    {
+        let mut sc = mk(&["none", "el(zzz)"], Kind::Passive, &[false]);
+        sc.extend(mk(&["everything"], Kind::Observing, &[false]));
+        scaled_sweep(ctx, &sc);
+    }
     if ctx.quick() {
         sweep(ctx, "F<=2 x 6 configs x every prefix x L1,L2(len<=20),LB,LE", Space::Frags { k, max: 2 }, &cfgs, l12);
         sweep(ctx, "F<=3 x {none, everything} x every prefix x L1,LB", Space::Frags { k, max: 3 }, &passive_only, l1);
